@@ -162,7 +162,10 @@ PROPS["C15"] = P(
                   for o in ("step.open", "step.add", "step.claim", "step.list", "step.disconnect")] +
                  [dict(ob="kernel.summarize_mailbox", params=dict(n=n), want=["C15."])
                   for n in ((0, 1, 2, 3, 4) if tier == "thorough" else (0, 1, 2, 3))] +
-                 [dict(ob="kernel.summarize_nameplate", params=dict(n=n), want=["C15."]) for n in (1, 2, 3, 4)])
+                 [dict(ob="kernel.summarize_nameplate", params=dict(n=n), want=["C15."]) for n in (1, 2, 3, 4)] +
+                 # the record's fields under a configured blur interval (the start time is the only one it may change)
+                 [dict(ob="kernel.summarize_mailbox", params=dict(n=2, blur="sym"), want=["C15."]),
+                  dict(ob="kernel.summarize_nameplate", params=dict(n=2, blur="sym"), want=["C15."])])
 
 PROPS["C16"] = P(
     "symbolic blur interval B in [1, 86400]: every start / connect time written by release, close, sweep and "
@@ -190,6 +193,7 @@ RESTART_ALL = lambda tier: [
     (["open_add", "claim", "open_close_other"], ["list", "allocate", "claim", "release", "open", "close", "sweep", "openadd"]),
     (["alloc"], ["claim", "allocate", "list", "release"]),
     (["open_add_sweep"], ["open", "claim", "list", "openadd"]),
+    (["open_add_livesweep"], ["sweep", "open"]),
     (["alloc_sweep_claim"], ["claim", "allocate"] if tier == "thorough" else ["claim"]),
     (["claim_list_open_close", "claim_list_release"], ["list", "allocate", "claim", "open"]),
     (["list_other_app"], ["list", "allocate", "claim"]),
@@ -201,7 +205,8 @@ RESTART_ALL = lambda tier: [
 
 PROPS["C11"] = P(
     "two-run product: an arbitrary INV state, then a short real history by connections that come and go "
-    "(open+add, allocate, claim, open+add+close, optionally followed by a long silence and a sweep, optionally "
+    "(open+add, allocate, claim, open+add+close, optionally followed by a long silence and a sweep or by a sweep "
+    "while the client is still subscribed, optionally "
     "followed by another side claiming the expired nameplate), then every connection is dropped; run X keeps "
     "the server object with whatever it accumulated in memory, run Y rebuilds it from the store; the same "
     "command from a reconnecting client (any app/side, in particular the ones used before the cut) yields "
